@@ -43,7 +43,7 @@ class ItemsMonitor(Monitor):
         if not isinstance(i, int) or i < 0 or (n is not None and i >= n):
             run.viol("C12", "item_out_of_range", "task %s offered item %r of %r" % (key[0], i, n), subject=key[0])
             return
-        if i in t["offered"] and not (t["rerun"] and t["done"].get(i, ("",))[0] in ABENDED + ("reset",)):
+        if i in t["offered"] and not t["rerun"]:
             run.viol("C12", "item_offered_twice", "task %s item %d offered twice in one execution attempt" % (key[0], i),
                      subject=key[0], cause=self._cause(run, key))
         if t["offered"] and not t["rerun"] and i < max(t["offered"]):
@@ -54,6 +54,13 @@ class ItemsMonitor(Monitor):
             if i != expect_next:
                 run.viol("C12", "item_skipped", "task %s offered item %d, next in index order is %d" % (key[0], i, expect_next),
                          subject=key[0])
+        if t["rerun"] and "rerun_allowed" in t:
+            if i not in t["rerun_allowed"]:
+                run.viol("C12", "rerun_offered_item_that_did_not_fail", "task %s: item %d offered after a rerun although it had "
+                         "succeeded (items that may run again: %r)" % (key[0], i, sorted(t["rerun_allowed"])), subject=key[0])
+            if i in t["rerun_offered"]:
+                run.viol("C12", "item_offered_twice", "task %s item %d offered twice after the rerun" % (key[0], i), subject=key[0])
+            t["rerun_offered"].append(i)
         if t["stopped"]:
             run.viol("C12", "item_offered_after_stop", "task %s item %d offered after %s" % (key[0], i, t["stopped"]),
                      subject=key[0])
@@ -136,10 +143,37 @@ class ItemsMonitor(Monitor):
         if ev["op"] == "req" and ev["exc"] is None and ev["args"][0] in ("pausing", "paused", "canceling", "canceled"):
             pass
         if ev["op"] == "rerun" and ev["exc"] is None:
-            for t in self.tables.values():
-                t["rerun"] = True
-                t["closed"] = False
-                t["stopped"] = None
+            reqs = ev["args"][0]
+            pre = ev["pre"]["state"]
+            for key, t in self.tables.items():
+                idx = pre["tasks"].get("%s__r%s" % key)
+                rec = pre["sequence"][idx] if idx is not None else {}
+                if reqs is None:
+                    direct = rec.get("status") in ABENDED and rec.get("term")
+                    reset = False
+                else:
+                    mine = [r for r in reqs if r[0] == key[0] and r[1] == key[1]]
+                    direct = bool(mine)
+                    if direct and run.model is not None:
+                        # a request for a task downstream of another requested task is collapsed into that one:
+                        # the task is then executed afresh as a descendant, all items included
+                        from ovf.mon.rerun import descendants
+                        for r in reqs:
+                            if r[0] != key[0] and key[0] in descendants(run.model, [r[0]]):
+                                direct = False
+                    reset = any(r[2] for r in mine)
+                still_staged = any(x["id"] == key[0] and x["route"] == key[1] and "items" in x for x in pre["staged"])
+                if direct and still_staged:
+                    # the task itself is rerun in place: only its failed items (all with reset_items) run again
+                    t["rerun"] = True
+                    t["closed"] = False
+                    t["stopped"] = None
+                    failed = [j for j, (st, _) in t["done"].items() if st in ABENDED or st == "canceled"]
+                    never = [j for j in range(t["n"] or 0) if j not in t["done"]]
+                    t["rerun_allowed"] = set(range(t["n"] or 0)) if reset else set(failed) | set(never)
+                    t["rerun_offered"] = []
+                else:
+                    t["closed"] = True  # a later execution of this task is a new one
 
     def on_end(self, run):
         # all n offered when nothing failed and no pause / cancel intervened
